@@ -951,6 +951,257 @@ pub fn c11_shard_case(dir: &Path, which: usize) -> Result<String, V> {
     Ok(o)
 }
 
+/// A command whose store call FAILS (every file-system call it makes returns EIO) while another
+/// client reads the key: client A issues `DEL k` (which = 0) or `SET k 1` (which = 1) on a store
+/// holding k = '0'; A's store call is stepped through its hook points; client B's two `GET k` run
+/// to completion before A's step number p1 and p2. A gets no success reply; B's reads must be
+/// explained by one order in which the failed command took effect once or not at all.
+pub fn c11_fault_case(dir: &Path, which: usize, p1: usize, p2: usize) -> Result<String, V> {
+    crate::iohook::grec_start(&dir.to_string_lossy(), false);
+    let r = c11_fault_case_inner(dir, which, p1, p2);
+    crate::iohook::grec_stop();
+    r
+}
+fn c11_fault_case_inner(dir: &Path, which: usize, p1: usize, p2: usize) -> Result<String, V> {
+    let srv = Srv::start(dir, &SrvCfg { max_connections: 8, max_file_size: 1 << 31, gated: true }).map_err(mach)?;
+    bitcask::verif::set_hook(crate::e5::inner_gate_hook);
+    srv.gate.set_inner_all(true);
+    let mut init = Kv::new();
+    let r = (|| -> Result<String, V> {
+        srv.handle.set(Bytes::from_static(b"k"), Bytes::from_static(b"0")).map_err(|e| mach(e.to_string()))?;
+        init.insert(b"k".to_vec(), b"0".to_vec());
+        let (a_req, a_lop, prefix) = if which == 0 { (Req::Del(vec![b"k".to_vec()]), LOp::Del(b"k".to_vec()), format!("del {}", hex(b"k"))) } else { (Req::Set(b"k".to_vec(), b"1".to_vec()), LOp::Set(b"k".to_vec(), b"1".to_vec()), format!("set {}", hex(b"k"))) };
+        srv.gate.set_fault_prefix(Some(prefix));
+        srv.gate.set_fault_stall(true);
+        crate::iohook::stall_reset();
+        let mut a = srv.connect().map_err(|e| mach(format!("connect: {}", e)))?;
+        let mut b = srv.connect().map_err(|e| mach(format!("connect: {}", e)))?;
+        let n0 = srv.gate.n_ops();
+        a.write_all(&a_req.encode()).map_err(|e| mach(e.to_string()))?;
+        if !srv.gate.wait_arrivals(n0 + 1, T20) {
+            return Err(("command-never-reaches-the-store".into(), format!("{} did not arrive at the store within 6 s", a_req.show())));
+        }
+        let op_a = n0;
+        let mut events: Vec<LEvent> = vec![];
+        let mut reads: Vec<String> = vec![];
+        let mut run_get = |b: &mut TcpStream, events: &mut Vec<LEvent>, reads: &mut Vec<String>| -> Result<(), V> {
+            let n = srv.gate.n_ops();
+            let inv = SEQ.fetch_add(1, Ordering::SeqCst);
+            b.write_all(&Req::Get(b"k".to_vec()).encode()).map_err(|e| mach(e.to_string()))?;
+            if !srv.gate.wait_arrivals(n + 1, T20) {
+                return Err(("command-never-reaches-the-store".into(), "GET k did not arrive at the store within 6 s while another client's command is in progress".into()));
+            }
+            srv.gate.release_before(n);
+            loop {
+                match srv.gate.wait_done_or_inner(n, T20) {
+                    None => return Err(("store-call-hangs".into(), "GET k neither finished nor reached a hook point within 6 s while another client's failing command is in progress".into())),
+                    Some(true) => {
+                        srv.gate.continue_inner(n);
+                    }
+                    Some(false) => break,
+                }
+            }
+            srv.gate.release_after(n);
+            let f = read_frame(b, T20).map_err(|e| ("reply-missing".to_string(), format!("GET k: {}", e)))?.0;
+            let ret = SEQ.fetch_add(1, Ordering::SeqCst);
+            reads.push(String::from_utf8_lossy(&enc(&f)).trim_end().replace("\r\n", " "));
+            events.push(LEvent { op: LOp::Get(b"k".to_vec()), res: frame_lres(&f, &LOp::Get(b"k".to_vec())), inv, ret });
+            Ok(())
+        };
+        let mut a_steps = 0usize;
+        let mut a_done = false;
+        let mut a_stalled = false;
+        let mut stall_used = false;
+        let mut gets_left: Vec<usize> = vec![p1, p2];
+        loop {
+            while gets_left.first().map_or(false, |p| *p <= a_steps || a_done) {
+                gets_left.remove(0);
+                run_get(&mut b, &mut events, &mut reads)?;
+            }
+            if a_done {
+                break;
+            }
+            // one step of A: up to its next hook point, its (slow, then failing) write, or its end
+            if a_steps == 0 {
+                srv.gate.release_before(op_a);
+            } else if a_stalled {
+                crate::iohook::stall_release();
+                a_stalled = false;
+                stall_used = true;
+            } else {
+                srv.gate.continue_inner(op_a);
+            }
+            a_steps += 1;
+            let t0 = Instant::now();
+            loop {
+                let o = srv.gate.snapshot()[op_a].clone();
+                if o.done {
+                    a_done = true;
+                    srv.gate.release_after(op_a);
+                    break;
+                }
+                if o.at_inner {
+                    break;
+                }
+                if !stall_used && crate::iohook::stall_reached() {
+                    a_stalled = true;
+                    break;
+                }
+                if t0.elapsed() > T20 {
+                    return Err(("store-call-hangs".into(), format!("{} neither finished nor reached its next hook point within 6 s", a_req.show())));
+                }
+                std::thread::sleep(Duration::from_micros(100));
+            }
+            if a_steps > 40 {
+                return Err(mach("more than 40 hook points in one command"));
+            }
+        }
+        let rec = srv.gate.snapshot()[op_a].clone();
+        let store_failed = rec.result == Some(LRes::Pending);
+        // what A is told
+        a.shutdown(NetShutdown::Write).ok();
+        let (bytes, how) = read_to_end(&mut a, T20);
+        if how == "timeout" {
+            return Err(("failed-command-neither-answered-nor-closed".into(), format!("{}: its store call failed, 6 s later the connection is still open without a reply", a_req.show())));
+        }
+        let acked = bytes.starts_with(b"+") || bytes.starts_with(b":");
+        if store_failed && acked {
+            return Err(("failed-command-acknowledged".into(), format!("{}: the store call failed (EIO), the client received {:?}", a_req.show(), String::from_utf8_lossy(&bytes))));
+        }
+        if !store_failed {
+            // nothing was failed for this command (it makes no file-system call): an ordinary run
+            events.push(LEvent { op: a_lop.clone(), res: rec.result.clone().unwrap_or(LRes::Pending), inv: rec.entered, ret: rec.exited });
+        } else {
+            events.push(LEvent { op: a_lop.clone(), res: LRes::Pending, inv: rec.entered, ret: rec.exited });
+        }
+        // a last read, after everything
+        srv.gate.set_fault_prefix(None);
+        run_get(&mut b, &mut events, &mut reads)?;
+        if linearizable(&init, &events).is_none() {
+            return Err(("history-with-a-failed-command-not-linearizable".into(), format!("initially k = '0'; {} whose store call fails with EIO (A was told {:?}), stepped through {} hook points; GET k before step {} and before step {} and at the end read {:?}: no single order explains this with the failed command taking effect once or not at all", a_req.show(), String::from_utf8_lossy(&bytes), a_steps, p1, p2, reads)));
+        }
+        Ok(format!("fault:{}:{}:{}", which, if store_failed { "failed" } else { "not-failed" }, reads.join(",")))
+    })();
+    srv.gate.set_fault_prefix(None);
+    srv.gate.set_fault_stall(false);
+    crate::iohook::stall_release();
+    srv.gate.release_all();
+    let stopped = srv.stop();
+    let o = r?;
+    if !stopped {
+        return Err(mach("server did not stop"));
+    }
+    Ok(o)
+}
+
+/// C20 at the server: `DEL a b c` (all present) where the store call for one of the keys fails.
+/// Whatever the client is told, an ACKNOWLEDGED command must read correctly afterwards: an integer
+/// reply means every named key is gone. The other keys are untouched, the server keeps serving.
+pub fn c20_server_case(dir: &Path, cmd: usize, fail_key: usize) -> Result<String, V> {
+    crate::iohook::grec_start(&dir.to_string_lossy(), false);
+    let r = (|| -> Result<String, V> {
+        let srv = Srv::start(dir, &SrvCfg { max_connections: 8, max_file_size: 1 << 31, gated: false }).map_err(mach)?;
+        let r = (|| -> Result<String, V> {
+            let keys: Vec<Vec<u8>> = vec![b"a".to_vec(), b"b".to_vec(), b"c".to_vec()];
+            let mut model = Kv::new();
+            for k in keys.iter().chain([b"other".to_vec()].iter()) {
+                srv.handle.set(Bytes::from(k.clone()), Bytes::from_static(b"v")).map_err(|e| mach(e.to_string()))?;
+                model.insert(k.clone(), b"v".to_vec());
+            }
+            let (req, named): (Req, Vec<Vec<u8>>) = match cmd {
+                0 => (Req::Del(keys.clone()), keys.clone()),
+                1 => (Req::Del(vec![keys[0].clone(), keys[1].clone()]), vec![keys[0].clone(), keys[1].clone()]),
+                2 => (Req::Del(vec![keys[fail_key % 3].clone()]), vec![keys[fail_key % 3].clone()]),
+                _ => (Req::Set(keys[fail_key % 3].clone(), b"w".to_vec()), vec![keys[fail_key % 3].clone()]),
+            };
+            let fk = &keys[fail_key % 3];
+            srv.gate.set_fault_prefix(Some(if cmd == 3 { format!("set {}", hex(fk)) } else { format!("del {}", hex(fk)) }));
+            let mut c = srv.connect().map_err(|e| mach(format!("connect: {}", e)))?;
+            c.write_all(&req.encode()).map_err(|e| mach(e.to_string()))?;
+            c.shutdown(NetShutdown::Write).ok();
+            let (bytes, how) = read_to_end(&mut c, T20);
+            srv.gate.set_fault_prefix(None);
+            if how == "timeout" {
+                return Err(("failed-command-neither-answered-nor-closed".into(), format!("{} with a failing store call for {}: no end of stream within 6 s", req.show(), hex(fk))));
+            }
+            let failed_any = srv.gate.snapshot().iter().any(|o| o.result == Some(LRes::Pending));
+            let acked = bytes.starts_with(b":") || bytes.starts_with(b"+");
+            let contents = srv.store_contents(&[keys.clone(), vec![b"other".to_vec()]].concat());
+            if acked {
+                // an acknowledged command reads correctly: every key it names has the state it asked for
+                for k in &named {
+                    let ok = if cmd == 3 { contents.get(k) == Some(&b"w".to_vec()) } else { !contents.contains_key(k) };
+                    if !ok {
+                        return Err(("acknowledged-command-does-not-read-correctly".into(), format!("{} was answered {:?} although the store call for {} failed (EIO); afterwards {} reads {:?}", req.show(), String::from_utf8_lossy(&bytes), hex(fk), hex(k), contents.get(k).map(|v| hex(v)))));
+                    }
+                }
+            }
+            // keys the command does not name are untouched; named keys hold their old or their new state
+            if contents.get(&b"other".to_vec()) != Some(&b"v".to_vec()) {
+                return Err(("failed-command-affects-another-key".into(), format!("{}: key 'other' reads {:?}", req.show(), contents.get(&b"other".to_vec()).map(|v| hex(v)))));
+            }
+            for k in &keys {
+                let v = contents.get(k);
+                let legal = if named.contains(k) { v.is_none() || v == Some(&b"v".to_vec()) || (cmd == 3 && v == Some(&b"w".to_vec())) } else { v == Some(&b"v".to_vec()) };
+                if !legal {
+                    return Err(("failed-command-affects-another-key".into(), format!("{}: key {} reads {:?}", req.show(), hex(k), v.map(|x| hex(x)))));
+                }
+            }
+            // the server keeps serving, and says the truth
+            let mut c2 = srv.connect().map_err(|e| mach(format!("connect: {}", e)))?;
+            c2.write_all(&Req::Set(b"after".to_vec(), b"1".to_vec()).encode()).map_err(|e| mach(e.to_string()))?;
+            c2.write_all(&Req::Get(b"after".to_vec()).encode()).map_err(|e| mach(e.to_string()))?;
+            let (got, how2) = read_n(&mut c2, b"+OK\r\n$1\r\n1\r\n".len(), T20);
+            if got != b"+OK\r\n$1\r\n1\r\n" {
+                return Err(("server-unusable-after-a-failed-command".into(), format!("after {} with a failing store call: SET after 1; GET after -> {:?} ({})", req.show(), String::from_utf8_lossy(&got), how2)));
+            }
+            Ok(format!("c20srv:{}:{}:{}", cmd, if failed_any { "failed" } else { "nothing-failed" }, if acked { "acked" } else { "not-acked" }))
+        })();
+        let stopped = srv.stop();
+        let o = r?;
+        if !stopped {
+            return Err(mach("server did not stop"));
+        }
+        Ok(o)
+    })();
+    crate::iohook::grec_stop();
+    r
+}
+
+pub fn c20_server(job: &Job, sh: &mut Shard, t0: Instant) {
+    let dir = job.scratch().join("store");
+    let mut i = 0usize;
+    for cmd in 0..4usize {
+        for fail_key in 0..3usize {
+            if cmd == 1 && fail_key == 2 {
+                continue;
+            }
+            i += 1;
+            if i % job.nshards != job.shard {
+                continue;
+            }
+            if t0.elapsed().as_secs() > job.deadline_s {
+                sh.capped = true;
+                return;
+            }
+            let case = json!({"engine": "net", "kind": "c20srv", "cmd": cmd, "fail_key": fail_key});
+            job.progress(&case);
+            sh.evaluations += 1;
+            sh.transitions += 4;
+            sh.states.insert(fnv(format!("c20srv{}{}", cmd, fail_key).as_bytes()));
+            sh.nontrivial.insert(fnv(format!("c20srv{}{}", cmd, fail_key).as_bytes()));
+            match c20_server_case(&dir, cmd, fail_key) {
+                Ok(o) => sh.outcome(o),
+                Err((c, msg)) if c == "MACHINERY" => sh.machinery_errors.push(format!("C20 server case {} {}: {}", cmd, fail_key, msg)),
+                Err((c, msg)) => match c20_server_case(&dir, cmd, fail_key) {
+                    Err((c2, _)) if c2 == c => sh.violate(Violation { class: format!("C20:{}", c), msg, case }),
+                    other => sh.machinery_errors.push(format!("C20 violation {} not reproduced ({:?}): {}", c, other.map_err(|e| e.0), msg)),
+                },
+            }
+        }
+    }
+}
+
 fn frame_lres(f: &RFrame, op: &LOp) -> LRes {
     match (f, op) {
         (RFrame::Simple(s), LOp::Set(..)) if s == b"OK" => LRes::Unit,
@@ -1057,6 +1308,15 @@ fn c11_cases(tier: Tier) -> Vec<(Vec<Vec<Req>>, Vec<usize>, u64, bool, u8)> {
     for w in 0..7usize {
         cases.push((vec![vec![]], vec![w], 1u64 << 31, false, 4));
     }
+    // a command whose store call FAILS (EIO on every file-system call it makes) while another client
+    // reads the key twice, before each pair of hook points of the failing command
+    for which in 0..2usize {
+        for p1 in 0..=6usize {
+            for p2 in p1..=7usize {
+                cases.push((vec![vec![]], vec![which, p1, p2], 1u64 << 31, false, 5));
+            }
+        }
+    }
     // every hook point inside the store (before the writer lock and before each KeyDir shard access):
     // 2 clients x 1 command over the full alphabet, from an empty store and from k = "0"; events per
     // command: enter, 3 x continue (2 for GET), return
@@ -1106,6 +1366,7 @@ fn c11_run(dir: &Path, progs: &[Vec<Req>], ord: &[usize], mfs: u64, merge: bool,
         2 => c11_case_all(dir, progs, ord, false),
         3 => c11_case_all(dir, progs, ord, true),
         4 => c11_shard_case(dir, ord.first().cloned().unwrap_or(0)),
+        5 => c11_fault_case(dir, ord.first().cloned().unwrap_or(0), ord.get(1).cloned().unwrap_or(0), ord.get(2).cloned().unwrap_or(0)),
         m => c11_case(dir, progs, ord, mfs, merge, m == 1),
     }
 }
@@ -2133,6 +2394,9 @@ pub fn c10(job: &Job, sh: &mut Shard, t0: Instant) {
 pub fn replay(prop: &str, case: &Value, dir: &Path) -> Vec<Violation> {
     let mut out = vec![];
     let mut push = |r: Result<String, V>| {
+        if let Ok(o) = &r {
+            println!("replayed case: {}", o);
+        }
         if let Err((c, m)) = r {
             out.push(Violation { class: format!("{}:{}", prop, c), msg: m, case: case.clone() });
         }
@@ -2152,6 +2416,7 @@ pub fn replay(prop: &str, case: &Value, dir: &Path) -> Vec<Violation> {
             let inner = case["inner"].as_u64().map(|x| x as u8).unwrap_or(if case["inner"].as_bool().unwrap_or(false) { 1 } else { 0 });
             push(c11_run(dir, &progs, &ord, case["max_file_size"].as_u64().unwrap_or(1 << 31), case["merge"].as_bool().unwrap_or(false), inner));
         }
+        "c20srv" => push(c20_server_case(dir, case["cmd"].as_u64().unwrap_or(0) as usize, case["fail_key"].as_u64().unwrap_or(0) as usize)),
         "c10q" => {
             let bytes: Vec<u8> = case["bytes"].as_array().map(|a| a.iter().map(|b| b.as_u64().unwrap() as u8).collect()).unwrap_or_else(|| {
                 let what = case["what"].as_str().unwrap_or("");
